@@ -164,6 +164,7 @@ type offer struct {
 }
 
 type round struct {
+	firstTarget atomic.Value // func(): called inside the miner's first GetTarget call of this round (stop-in-walk)
 	sc        *scenario
 	P         *roundP
 	rng       *vh.Rng
@@ -195,7 +196,7 @@ type scenario struct {
 func (r *round) active() bool { return atomic.LoadInt32(&r.activated) == 1 }
 
 var eventClasses = []string{"plain", "plain", "tip-before", "plain", "stop-before", "plain", "same-height", "plain", "tip-not-better", "plain",
-	"tip-after", "plain", "stop-after", "plain", "same-height-rejected", "tip-before", "plain", "stop-before", "same-height-restart", "plain"}
+	"tip-after", "plain", "stop-after", "stop-in-walk", "same-height-rejected", "tip-before", "plain", "stop-before", "same-height-restart", "stop-in-walk"}
 var setClasses = []string{"all-valid", "some-unbound", "all-valid", "some-error", "none-valid", "mixed", "poisoned"}
 var targetClasses = []string{"off0", "off1", "boundary", "off2", "never", "off4", "second-never", "off1", "off0"}
 
@@ -406,6 +407,16 @@ func genScenario(e *env, root *vh.Rng, idx int) *scenario {
 		}
 		p.Rounds = []roundP{rp}
 		p.MarginMs = rng.Range(2500, 3500)
+	case "stop-in-walk":
+		// the template lies several slots in the past, so the first tick walks over all of them at once; the miner is
+		// stopped while it is inside that walk (from the chain's GetTarget hook at the first slot), before it reaches
+		// the eligible slot further on
+		if tClass != "off1" && tClass != "off2" && tClass != "off4" {
+			tClass = rng.PickS("off1", "off2", "off4")
+		}
+		rp := mk(0, height, setClass, tClass, -2, 0)
+		rp.D = -rp.K - rng.Range(1, 3)
+		p.Rounds = []roundP{rp}
 	case "tip-not-better":
 		p.Rounds = []roundP{mk(0, height, setClass, tClass, -2, 3)}
 		p.MarginMs = rng.Range(300, 2500)
@@ -665,7 +676,11 @@ func (r *round) templates() (*blockchain.PoCTemplate, *blockchain.BlockTemplate)
 		Previous:  r.Prev,
 		Challenge: r.Challenge,
 		GetTarget: func(t time.Time) *big.Int {
-			atomic.AddInt64(&r.targetCalls, 1)
+			if atomic.AddInt64(&r.targetCalls, 1) == 1 {
+				if h, ok := r.firstTarget.Load().(func()); ok && h != nil {
+					h()
+				}
+			}
 			return r.targetAt(t)
 		},
 		PassBinding: func(p blockchain.Proof) bool {
